@@ -33,9 +33,24 @@ class Ctx:
         os.makedirs(self.work)
         self.notes = []
         self.quick = tier == "quick"
+        self._private_build()
+
+    def _private_build(self):
+        """Every run works on its own copy of the Coq tree (sources and whatever setup.sh has compiled): the model is
+        regenerated and the theorems are rebuilt there, so runs that overlap in time - for other properties, or against
+        another SPARKX_REPO - never see each other's half-written Gen/*.v or *.vo files."""
+        global COQ
+        shared = os.path.join(VERIF, "coq")
+        private = self.work + "_coq"      # beside, not inside, the scratch directory (which is itself a -Q root)
+        shutil.rmtree(private, ignore_errors=True)
+        self.private_coq = private
+        with Lock(shared):    # not while setup.sh (or anything else) is building the shared tree
+            subprocess.run(["cp", "-a", shared, private], check=True)
+        COQ = private
 
     def cleanup(self):
         shutil.rmtree(self.work, ignore_errors=True)
+        shutil.rmtree(self.private_coq, ignore_errors=True)
 
 
 # --------------------------------------------------------------------------- numbers
@@ -140,8 +155,11 @@ def regenerate(mods):
 
 # --------------------------------------------------------------------------- coq build
 class Lock:
+    def __init__(self, root=None):
+        self.root = root
+
     def __enter__(self):
-        self.f = open(os.path.join(COQ, ".lock"), "w")
+        self.f = open(os.path.join(self.root or COQ, ".lock"), "w")
         fcntl.flock(self.f, fcntl.LOCK_EX)
 
     def __exit__(self, *a):
@@ -308,6 +326,9 @@ def write_evidence(ctx, coverage, assumptions, violations):
     ev = {"property_id": ctx.prop, "tier": ctx.tier, "seed": ctx.seed, "level": "proof",
           "coverage": coverage, "assumptions": assumptions, "wall_s": round(time.time() - ctx.t0, 2),
           "violations": violations}
-    os.makedirs(os.path.join(VERIF, "evidence"), exist_ok=True)
-    with open(os.path.join(VERIF, "evidence", ctx.prop + ".json"), "w") as f:
+    # VERIF_EVIDENCE_DIR: used only by my own experiments against scratch worktrees, so that they do not overwrite the
+    # evidence of the last run on /repo
+    evdir = os.environ.get("VERIF_EVIDENCE_DIR") or os.path.join(VERIF, "evidence")
+    os.makedirs(evdir, exist_ok=True)
+    with open(os.path.join(evdir, ctx.prop + ".json"), "w") as f:
         json.dump(ev, f, indent=1, default=str)
